@@ -19,11 +19,21 @@
 // processes (re-exec of this binary; VERIF_C10_WORKERS overrides, VERIF_C10_DEBUG=1 prints timings).
 // Failures are minimised (sub-expression replacement, layout, then delta debugging on the rows) and
 // reported per class as `<violated oracle>|<minimal predicate>[|layout=B]`.
+//
+// File-layout sweep (second dimension, same oracle): the measurement's files are every subset of size
+// 1..3 of a seven-path alphabet of partition paths whose base names are equal (other hour, same hour
+// of another day, day-level next to hour-level), suffixes or prefixes of each other; for a predicate
+// and every achievable status vector in {none, partial, full}^K the rows are placed so that the file
+// at each position of the storage listing order is not matched, partially matched (rewrite branch) or
+// fully matched (whole-file removal branch). See sweepRule for the per-tier bound. Failures are
+// minimised over (files, predicate, file layout, status vector, rows) and reported per class as
+// `layout:<violated oracle>|<predicate>|<path>=<status>,...`.
 package main
 
 import (
 	"bufio"
 	"bytes"
+	"context"
 	"database/sql"
 	"encoding/json"
 	"fmt"
@@ -381,12 +391,14 @@ type layout struct {
 	Name      string
 	Rows      []*row // ground truth, by ascending id
 	File2HasB bool
+	NFiles    int
+	AllB      bool // every file has column b (the file-layout sweep)
 }
 
 const baseTimeUS = int64(1704067200000000) // 2024-01-01T00:00:00Z
 
 func buildLayout(name string, file2HasB bool) *layout {
-	l := &layout{Name: name, File2HasB: file2HasB}
+	l := &layout{Name: name, File2HasB: file2HasB, NFiles: 2}
 	xs := []*int64{nil, new(int64), new(int64)}
 	*xs[2] = 1
 	a, ab := "a", "ab"
@@ -417,7 +429,217 @@ func buildLayout(name string, file2HasB bool) *layout {
 
 func (l *layout) table() string { return "before_" + l.Name }
 
-func (l *layout) hasB(file int) bool { return file == 1 || l.File2HasB }
+func (l *layout) hasB(file int) bool { return l.AllB || file == 1 || l.File2HasB }
+
+// ---- the file-layout sweep ------------------------------------------------------
+//
+// Layout S: sweepMaxFiles copies of the value universe x in {NULL,0,1} x s in {NULL,'a','ab'} x
+// b in {NULL,true} (18 rows each, every file has column b), copy k = the rows that may be placed in
+// the file at position k of the storage listing order (ids k*100+1 .. k*100+18).
+//
+// A file layout is a non-empty subset of sweepAlphabet (paths relative to the measurement
+// directory); its files are numbered in LISTING order (the order LocalBackend.List returns them:
+// component-wise lexical, verified against the real List at start-up). For a predicate and a status
+// vector in {none, partial, full}^K the file at position k holds, of copy k: only the rows on which
+// the predicate is not TRUE (none: the file must be left alone), all 18 rows (partial: the rewrite
+// branch) or only the rows on which it is TRUE (full: the whole-file removal branch). A combination
+// is achievable when no file would be empty and a partial file has both kinds of rows.
+const sweepMaxFiles = 3
+
+var sweepAlphabet = []string{
+	"2024/01/01/00/f.parquet",         // reference
+	"2024/01/01/01/f.parquet",         // equal base name, other hour of the same day
+	"2024/01/02/00/f.parquet",         // equal base name, same hour of another day
+	"2024/01/01/f.parquet",            // equal base name, day-level file next to the hour directories
+	"2024/01/01/00/xf.parquet",        // "f.parquet" is a proper suffix of the base name
+	"2024/01/01/00/fx.parquet",        // stem "f" is a proper prefix of the stem
+	"2024/01/01/01/f.parquet.parquet", // "f.parquet" is a proper prefix of the base name
+}
+
+const (
+	stNone    = 0
+	stPartial = 1
+	stFull    = 2
+)
+
+var stName = []string{"none", "partial", "full"}
+
+func buildSweepLayout() *layout {
+	l := &layout{Name: "S", NFiles: sweepMaxFiles, AllB: true}
+	xs := []*int64{nil, new(int64), new(int64)}
+	*xs[2] = 1
+	a, ab := "a", "ab"
+	ss := []*string{nil, &a, &ab}
+	tr := true
+	bs := []*bool{nil, &tr}
+	for file := 1; file <= sweepMaxFiles; file++ {
+		k := 0
+		for _, x := range xs {
+			for _, s := range ss {
+				for _, b := range bs {
+					k++
+					id := file*100 + k
+					r := &row{ID: id, File: file, X: x, S: s, B: b, T: baseTimeUS + int64(id)*1_000_000}
+					if id%3 != 0 {
+						f := float64(id) * 0.5
+						r.F = &f
+					}
+					l.Rows = append(l.Rows, r)
+				}
+			}
+		}
+	}
+	return l
+}
+
+// listingLess: the order in which a recursive, name-sorted directory walk visits two relative paths.
+func listingLess(a, b string) bool {
+	as, bs := strings.Split(a, "/"), strings.Split(b, "/")
+	for i := 0; i < len(as) && i < len(bs); i++ {
+		if as[i] != bs[i] {
+			return as[i] < bs[i]
+		}
+	}
+	return len(as) < len(bs)
+}
+
+type fileLayout struct {
+	Idx   []int    // indices into sweepAlphabet, ascending (canonical order of layouts: by size, then by this)
+	Paths []string // the same files in listing order: Paths[k-1] is file k
+}
+
+func (f *fileLayout) name() string { return strings.Join(f.Paths, ",") }
+
+// buildFileLayouts: every subset of sweepAlphabet of size 1..sweepMaxFiles, smallest and earliest first.
+func buildFileLayouts() []*fileLayout {
+	var out []*fileLayout
+	n := len(sweepAlphabet)
+	for k := 1; k <= sweepMaxFiles; k++ {
+		var rec func(from int, cur []int)
+		rec = func(from int, cur []int) {
+			if len(cur) == k {
+				f := &fileLayout{Idx: append([]int{}, cur...)}
+				for _, i := range cur {
+					f.Paths = append(f.Paths, sweepAlphabet[i])
+				}
+				sort.SliceStable(f.Paths, func(i, j int) bool { return listingLess(f.Paths[i], f.Paths[j]) })
+				out = append(out, f)
+				return
+			}
+			for i := from; i < n; i++ {
+				rec(i+1, append(cur, i))
+			}
+		}
+		rec(0, nil)
+	}
+	return out
+}
+
+func (f *fileLayout) pathMap() map[int]string {
+	m := map[int]string{}
+	for i, p := range f.Paths {
+		m[i+1] = "m/" + p
+	}
+	return m
+}
+
+// sweepPreds: the predicates of the file-layout sweep, simplest first: the nine atoms, 1=1, NOT atom.
+func sweepPreds() []*expr {
+	var out []*expr
+	for i := range atoms {
+		out = append(out, &expr{Op: "atom", Atom: i})
+	}
+	out = append(out, &expr{Op: "atom", Atom: fullTable})
+	for i := range atoms {
+		out = append(out, &expr{Op: "not", A: &expr{Op: "atom", Atom: i}})
+	}
+	return out
+}
+
+// sweepPredsSmall: of the depth-0 predicates, the first for every distinct SET of truth values the
+// predicate takes over the value universe ({T,F,N}, {T,F}, {T,N}, {T}): what a file can be made of.
+func sweepPredsSmall(S *layout) []*expr {
+	seen := map[string]bool{}
+	var out []*expr
+	for _, e := range sweepPreds() {
+		if e.depth() > 0 {
+			continue
+		}
+		var has [3]bool
+		for _, r := range S.Rows {
+			has[e.eval(r)] = true
+		}
+		k := fmt.Sprint(has)
+		if !seen[k] {
+			seen[k] = true
+			out = append(out, e)
+		}
+	}
+	return out
+}
+
+// sweepRows: the rows of layout S placed in the K files for (predicate, status vector); nil when the
+// combination is not achievable. Placement uses the reference evaluator; every executed case is
+// judged with DuckDB's own per-row values, which must agree with it on every row.
+func sweepRows(S *layout, e *expr, st []int) []*row {
+	var out []*row
+	for k, want := range st {
+		nT, nO := 0, 0
+		for _, r := range S.Rows {
+			if r.File != k+1 {
+				continue
+			}
+			isT := e.eval(r) == tvT
+			if (want == stFull && !isT) || (want == stNone && isT) {
+				continue
+			}
+			if isT {
+				nT++
+			} else {
+				nO++
+			}
+			out = append(out, r)
+		}
+		switch want {
+		case stFull:
+			if nT == 0 {
+				return nil
+			}
+		case stNone:
+			if nO == 0 {
+				return nil
+			}
+		default:
+			if nT == 0 || nO == 0 {
+				return nil
+			}
+		}
+	}
+	return out
+}
+
+func stText(st []int) string {
+	var s []string
+	for _, v := range st {
+		s = append(s, stName[v])
+	}
+	return strings.Join(s, ",")
+}
+
+// statusVectors: {none, partial, full}^k, none first.
+func statusVectors(k int) [][]int {
+	out := [][]int{{}}
+	for i := 0; i < k; i++ {
+		var next [][]int
+		for _, p := range out {
+			for v := 0; v < 3; v++ {
+				next = append(next, append(append([]int{}, p...), v))
+			}
+		}
+		out = next
+	}
+	return out
+}
 
 // ---- one worker: its own Arc DuckDB, backend, fiber app and oracle connection ------------------
 
@@ -427,7 +649,9 @@ type worker struct {
 	app     *fiber.App
 	arcdb   *database.DuckDB
 	oracle  *sql.DB
+	be      *storage.LocalBackend
 	caseSeq int
+	fixture map[string][]byte // parquet bytes of a fixture file, by layout/file/ids
 }
 
 func must(err error, what string) {
@@ -439,6 +663,8 @@ func must(err error, what string) {
 
 var scratch string   // removed on exit by the process that created it (the parent)
 var childRoot string // where this process puts its worker directory
+
+const sweepRule = "files of one measurement = every subset of size 1..3 of a 7-path alphabet {2024/01/01/00/f.parquet; 2024/01/01/01/f.parquet (equal base name, other hour); 2024/01/02/00/f.parquet (equal base name, same hour of another day); 2024/01/01/f.parquet (equal base name, day-level file); 2024/01/01/00/xf.parquet (base name has f.parquet as suffix); 2024/01/01/00/fx.parquet (stem has f as prefix); 2024/01/01/01/f.parquet.parquet (base name has f.parquet as prefix)}, files numbered in the backend's listing order; for a predicate and a status vector in {none, partial, full}^K the file at position k holds of its own copy of the 18-row value universe (x,s,b product, every file has b) only the rows where the predicate is not TRUE (none), all rows (partial: rewrite branch) or only the rows where it is TRUE (full: whole-file removal branch); every achievable status vector (no empty file, a partial file has both kinds of rows) of every (file layout, predicate) pair of the tier is executed: quick = all 1- and 2-file layouts x the small predicate set (of the depth-0 predicates, in atom order, the first per distinct SET of truth values taken over the universe - {T,F,N}, {T,N}, {T,F}, {T} - listed in layout_sweep.small_predicate_set) and the four 3-file layouts of equal base names x the first of them; thorough = all 1- and 2-file layouts x 19 predicates (9 atoms, 1=1, NOT atom) and all 35 3-file layouts x the small predicate set."
 
 const quickBound = "every expression of depth<=1 (ordered operands, repetitions) and, of the depth-2 expressions enumerated simplest-first, the first representative of every per-row TRUE/FALSE/NULL vector not produced by an earlier expression (each semantically distinct selection of the depth-2 space is executed once; thorough executes every expression up to commutativity)"
 
@@ -490,6 +716,8 @@ func newWorker(id int, layouts []*layout) *worker {
 	}, lg)
 	must(err, "database.New")
 	w.arcdb = db
+	w.be = be
+	w.fixture = map[string][]byte{}
 	h := api.NewDeleteHandler(db, be, &config.DeleteConfig{Enabled: true, ConfirmationThreshold: 10000, MaxRowsPerDelete: 1000000}, nil, filepath.Join(tmp, "upload"), lg)
 	w.app = fiber.New(fiber.Config{DisableStartupMessage: true})
 	h.RegisterRoutes(w.app)
@@ -510,6 +738,7 @@ type dataset struct {
 	L     *layout
 	Rows  []*row
 	Files map[int][]byte // file number -> parquet bytes (absent when the file has no rows)
+	Paths map[int]string // file number -> path relative to the database directory
 }
 
 func idList(rows []*row) string {
@@ -522,8 +751,12 @@ func idList(rows []*row) string {
 
 // makeDataset writes the fixture files with the ORACLE DuckDB's COPY (never Arc's code) and reads them back.
 func (w *worker) makeDataset(l *layout, rows []*row) *dataset {
-	ds := &dataset{L: l, Rows: rows, Files: map[int][]byte{}}
-	for file := 1; file <= 2; file++ {
+	return w.makeDatasetAt(l, rows, fileRel)
+}
+
+func (w *worker) makeDatasetAt(l *layout, rows []*row, paths map[int]string) *dataset {
+	ds := &dataset{L: l, Rows: rows, Files: map[int][]byte{}, Paths: paths}
+	for file := 1; file <= l.NFiles; file++ {
 		var sub []*row
 		for _, r := range rows {
 			if r.File == file {
@@ -531,6 +764,14 @@ func (w *worker) makeDataset(l *layout, rows []*row) *dataset {
 			}
 		}
 		if len(sub) == 0 {
+			continue
+		}
+		if _, ok := paths[file]; !ok {
+			must(fmt.Errorf("file %d has rows but no path", file), "dataset")
+		}
+		ckey := fmt.Sprintf("%s/%d/%s", l.Name, file, idList(sub))
+		if b, ok := w.fixture[ckey]; ok {
+			ds.Files[file] = b
 			continue
 		}
 		cols := "id, time, x, s, b, f"
@@ -546,6 +787,9 @@ func (w *worker) makeDataset(l *layout, rows []*row) *dataset {
 		must(err, "fixture read")
 		os.Remove(p)
 		ds.Files[file] = b
+		if len(w.fixture) < 4096 {
+			w.fixture[ckey] = b
+		}
 	}
 	return ds
 }
@@ -555,7 +799,7 @@ func (w *worker) materialise(ds *dataset) string {
 	w.caseSeq++
 	dbname := fmt.Sprintf("d%d", w.caseSeq)
 	for file, b := range ds.Files {
-		p := filepath.Join(w.storeDir(), dbname, fileRel[file])
+		p := filepath.Join(w.storeDir(), dbname, ds.Paths[file])
 		must(os.MkdirAll(filepath.Dir(p), 0o755), "mkdir")
 		must(os.WriteFile(p, b, 0o644), "write fixture")
 	}
@@ -657,6 +901,8 @@ type outcome struct {
 	DryCount   int64             `json:"dry"`
 	DelCount   int64             `json:"del"`
 	Status     int               `json:"http"`
+	FileStatus []int             `json:"fstatus,omitempty"` // measured per file position: none/partial/full (from DuckDB's per-row values)
+	FileFate   string            `json:"ffate,omitempty"`   // measured per file position after the delete: u(ntouched) w(rewritten) r(emoved)
 }
 
 func multisetDiff(a, b []string) (onlyA, onlyB []string) {
@@ -734,14 +980,27 @@ func (w *worker) truths(L *layout, rows []*row, es []*expr) [][]byte {
 	return out
 }
 
+var phase = map[string]time.Duration{} // VERIF_C10_DEBUG: where a worker's time goes
+var phaseT time.Time
+
+func lap(name string) {
+	now := time.Now()
+	phase[name] += now.Sub(phaseT)
+	phaseT = now
+}
+
 func (w *worker) judge(ds *dataset, e *expr, tv []byte) *outcome {
 	where := e.render()
+	phaseT = time.Now()
 	o := &outcome{Kinds: map[string]string{}}
 	if tv == nil {
 		tv = w.truths(ds.L, ds.Rows, []*expr{e})[0]
 	}
 	nT := int64(0)
-	perFile := map[int]map[byte]int{1: {}, 2: {}}
+	perFile := map[int]map[byte]int{}
+	for f := 1; f <= ds.L.NFiles; f++ {
+		perFile[f] = map[byte]int{}
+	}
 	for i, r := range ds.Rows {
 		if tv[i] == 'T' {
 			nT++
@@ -749,9 +1008,19 @@ func (w *worker) judge(ds *dataset, e *expr, tv []byte) *outcome {
 		perFile[r.File][tv[i]]++
 	}
 	o.Truth = string(tv)
-	for f := 1; f <= 2; f++ {
+	for f := 1; f <= ds.L.NFiles; f++ {
 		if perFile[f]['T'] > 0 && perFile[f]['N'] > 0 {
 			o.NonTrivial = true
+		}
+		if _, ok := ds.Files[f]; ok {
+			switch t, rest := perFile[f]['T'], perFile[f]['F']+perFile[f]['N']; {
+			case t == 0:
+				o.FileStatus = append(o.FileStatus, stNone)
+			case rest == 0:
+				o.FileStatus = append(o.FileStatus, stFull)
+			default:
+				o.FileStatus = append(o.FileStatus, stPartial)
+			}
 		}
 	}
 	var before []string
@@ -761,10 +1030,12 @@ func (w *worker) judge(ds *dataset, e *expr, tv []byte) *outcome {
 	sort.Strings(before)
 
 	dbname := w.materialise(ds)
-	defer func() { os.RemoveAll(filepath.Join(w.storeDir(), dbname)) }()
+	defer func() { os.RemoveAll(filepath.Join(w.storeDir(), dbname)); lap("cleanup") }()
+	lap("materialise")
 
 	// dry run
 	st, dr, raw := w.post(dbname, where, true)
+	lap("dryrun")
 	if st != 200 || dr == nil || !dr.Success || !dr.DryRun {
 		o.Kinds["dryrun-failed"] = fmt.Sprintf("dry run answered HTTP %d %s", st, raw)
 	} else {
@@ -775,7 +1046,7 @@ func (w *worker) judge(ds *dataset, e *expr, tv []byte) *outcome {
 	}
 	unchanged := true
 	for file, b := range ds.Files {
-		cur, err := os.ReadFile(filepath.Join(w.storeDir(), dbname, fileRel[file]))
+		cur, err := os.ReadFile(filepath.Join(w.storeDir(), dbname, ds.Paths[file]))
 		if err != nil || !bytes.Equal(cur, b) {
 			unchanged = false
 		}
@@ -791,8 +1062,10 @@ func (w *worker) judge(ds *dataset, e *expr, tv []byte) *outcome {
 		}
 	}
 
+	lap("dryrun-compare")
 	// confirmed delete
 	st, del, raw := w.post(dbname, where, false)
+	lap("delete")
 	o.Status = st
 	failed := map[int]bool{}
 	whole := false // the request failed as a whole
@@ -802,16 +1075,23 @@ func (w *worker) judge(ds *dataset, e *expr, tv []byte) *outcome {
 	} else {
 		o.DelCount = del.DeletedCount
 		for _, fn := range del.FailedFiles {
-			file := 0
-			for k, rel := range fileRel {
-				if filepath.Base(rel) == fn {
+			// failed_files carries base names only: every file of that name counts as reported failed
+			file, excused := 0, true
+			for k := 1; k <= ds.L.NFiles; k++ {
+				if rel, ok := ds.Paths[k]; ok && filepath.Base(rel) == fn {
 					file = k
+					failed[k] = true
+					if ds.L.hasB(k) {
+						excused = false
+					}
 				}
 			}
-			failed[file] = true
+			if file == 0 {
+				failed[0] = true
+			}
 			// excused only when the predicate references a column this file does not have (schema
 			// evolution is outside the property's quantifier); anything else is a failed delete
-			if file != 0 && e.refsB() && !ds.L.hasB(file) {
+			if file != 0 && e.refsB() && excused {
 				o.Tolerated = true
 			} else {
 				o.Kinds["delete-failed"] = fmt.Sprintf("confirmed delete failed on %s: HTTP %d %s", fn, st, raw)
@@ -821,8 +1101,23 @@ func (w *worker) judge(ds *dataset, e *expr, tv []byte) *outcome {
 			o.Kinds["delete-failed"] = fmt.Sprintf("confirmed delete answered HTTP %d %s", st, raw)
 		}
 	}
+	// what happened to each file (coverage only: which branch of the handler the case drove)
+	for f := 1; f <= ds.L.NFiles; f++ {
+		if b, ok := ds.Files[f]; ok {
+			cur, err := os.ReadFile(filepath.Join(w.storeDir(), dbname, ds.Paths[f]))
+			switch {
+			case err != nil:
+				o.FileFate += "r"
+			case bytes.Equal(cur, b):
+				o.FileFate += "u"
+			default:
+				o.FileFate += "w"
+			}
+		}
+	}
 	// the measurement afterwards
 	after, err := w.readMeasurement(dbname)
+	lap("read-after")
 	if err != nil {
 		o.Kinds["unreadable-after"] = "measurement unreadable after delete: " + err.Error()
 		return o
@@ -878,26 +1173,125 @@ func addDetail(o *outcome, kind, d string) {
 // ---- task list, worker processes ---------------------------------------------------------
 
 type task struct {
-	e *expr
-	l int
+	e  *expr
+	l  int   // index into layouts: 0 = A, 1 = B, 2 = S (file-layout sweep)
+	fl int   // file-layout sweep: index into the file layouts; -1 in the predicate sweep
+	st []int // file-layout sweep: status per file position
+}
+
+const layoutS = 2
+
+// sweepKey identifies one case of the file-layout sweep (memo and replay).
+func sweepKey(fl int, st []int, e *expr) string {
+	return fmt.Sprintf("S|%d|%s|%s", fl, stText(st), e.render())
+}
+
+// sameBaseTriple: a three-file layout whose files all carry the reference base name.
+func sameBaseTriple(f *fileLayout) bool {
+	if len(f.Paths) != 3 {
+		return false
+	}
+	for _, p := range f.Paths {
+		if filepath.Base(p) != filepath.Base(sweepAlphabet[0]) {
+			return false
+		}
+	}
+	return true
+}
+
+// sweepPlan: which (file layout, predicate) pairs a tier runs; every achievable status vector of each.
+//
+//	quick:    every 1- and 2-file layout x sweepPredsSmall; the 3-file layouts of equal base names x the first predicate
+//	thorough: every 1- and 2-file layout x sweepPreds (19); every 3-file layout x sweepPredsSmall
+func sweepPlan(quick bool, S *layout, fls []*fileLayout) []task {
+	small, all := sweepPredsSmall(S), sweepPreds()
+	var out []task
+	for i, f := range fls {
+		var preds []*expr
+		switch {
+		case len(f.Paths) <= 2 && quick:
+			preds = small
+		case len(f.Paths) <= 2:
+			preds = all
+		case !quick:
+			preds = small
+		case sameBaseTriple(f):
+			preds = small[:1]
+		}
+		for _, e := range preds {
+			for _, st := range statusVectors(len(f.Paths)) {
+				if sweepRows(S, e, st) != nil {
+					out = append(out, task{e: e, l: layoutS, fl: i, st: st})
+				}
+			}
+		}
+	}
+	return out
 }
 
 func buildTasks(run *ev.Run, layouts []*layout) ([]*expr, []task) {
 	exprs := enumerate(!run.Quick() && os.Getenv("VERIF_C10_ORDERED") != "")
 	if run.Quick() {
-		exprs = quickSubset(exprs, layouts)
+		exprs = quickSubset(exprs, layouts[:layoutS])
 	}
 	var tasks []task
 	for _, e := range exprs {
-		tasks = append(tasks, task{e, 0})
+		tasks = append(tasks, task{e: e, l: 0, fl: -1})
 		if e.refsB() {
-			tasks = append(tasks, task{e, 1}) // second layout: file 2 has column b as well
+			tasks = append(tasks, task{e: e, l: 1, fl: -1}) // second layout: file 2 has column b as well
 		}
+	}
+	// the file-layout sweep, interleaved so that every worker process gets its share of both
+	sw := sweepPlan(run.Quick(), layouts[layoutS], buildFileLayouts())
+	// debugging knob: VERIF_C10_ONLY=layout|predicate runs one of the two sweeps (evidence says exhaustive=false)
+	switch os.Getenv("VERIF_C10_ONLY") {
+	case "layout":
+		tasks = nil
+	case "predicate":
+		sw = nil
+	}
+	if len(tasks) == 0 {
+		tasks, sw = sw, nil
+	}
+	if len(sw) > 0 {
+		var mixed []task
+		step := float64(len(tasks)) / float64(len(sw))
+		j := 0
+		for i, t := range tasks {
+			mixed = append(mixed, t)
+			for j < len(sw) && float64(j)*step <= float64(i) {
+				mixed = append(mixed, sw[j])
+				j++
+			}
+		}
+		tasks = append(mixed, sw[j:]...)
 	}
 	if run.Seed != 0 { // VERIF_SEED only permutes the order
 		rand.New(rand.NewSource(int64(run.Seed))).Shuffle(len(tasks), func(i, j int) { tasks[i], tasks[j] = tasks[j], tasks[i] })
 	}
 	return exprs, tasks
+}
+
+// sweepCase builds the dataset of one file-layout-sweep case and DuckDB's per-row values for it.
+func (w *worker) sweepCase(S *layout, f *fileLayout, e *expr, st []int, tvAll map[string][]byte) (*dataset, []byte) {
+	rows := sweepRows(S, e, st)
+	if rows == nil {
+		return nil, nil
+	}
+	all, ok := tvAll[e.render()]
+	if !ok {
+		all = w.truths(S, S.Rows, []*expr{e})[0]
+		tvAll[e.render()] = all
+	}
+	pos := map[int]int{}
+	for i, r := range S.Rows {
+		pos[r.ID] = i
+	}
+	tv := make([]byte, len(rows))
+	for i, r := range rows {
+		tv[i] = all[pos[r.ID]]
+	}
+	return w.makeDatasetAt(S, rows, f.pathMap()), tv
 }
 
 type result struct {
@@ -929,11 +1323,13 @@ func childMain(run *ev.Run, spec string, layouts []*layout) {
 		}
 	}
 	tvs := map[int][]byte{}
-	for l := range layouts {
+	fls := buildFileLayouts()
+	tvS := map[string][]byte{}
+	for l := range layouts[:layoutS] {
 		var es []*expr
 		var ix []int
 		for _, i := range mine {
-			if tasks[i].l == l {
+			if tasks[i].l == l && tasks[i].fl < 0 {
 				es = append(es, tasks[i].e)
 				ix = append(ix, i)
 			}
@@ -949,11 +1345,17 @@ func childMain(run *ev.Run, spec string, layouts []*layout) {
 		if time.Now().Unix() >= deadline {
 			break
 		}
-		o := w.judge(full[tasks[i].l], tasks[i].e, tvs[i])
+		var o *outcome
+		if t := tasks[i]; t.fl >= 0 {
+			ds, tv := w.sweepCase(layouts[layoutS], fls[t.fl], t.e, t.st, tvS)
+			o = w.judge(ds, t.e, tv)
+		} else {
+			o = w.judge(full[t.l], t.e, tvs[i])
+		}
 		enc.Encode(result{i, o})
 	}
 	out.Flush()
-	dbg("cases done")
+	dbg(fmt.Sprintf("cases done (%d) phases %v", len(mine), phase))
 	w.arcdb.Close()
 	w.oracle.Close()
 	os.Exit(0)
@@ -964,7 +1366,7 @@ func childMain(run *ev.Run, spec string, layouts []*layout) {
 func main() {
 	run := ev.Start("C10", "exploration")
 	tStart := time.Now()
-	layouts := []*layout{buildLayout("A", false), buildLayout("B", true)}
+	layouts := []*layout{buildLayout("A", false), buildLayout("B", true), buildSweepLayout()}
 	if spec := os.Getenv("VERIF_C10_CHILD"); spec != "" {
 		scratch = "" // the parent owns and removes the scratch tree
 		childRoot = os.Getenv("VERIF_C10_SCRATCH")
@@ -992,9 +1394,14 @@ func main() {
 
 	// in-process worker: validates the fixtures, minimises, replays
 	w0 := newWorker(999, layouts)
+	fls := buildFileLayouts()
 	full := make([]*dataset, len(layouts))
 	for i, l := range layouts {
-		full[i] = w0.makeDataset(l, l.Rows)
+		if i == layoutS {
+			full[i] = w0.makeDatasetAt(l, l.Rows, fls[len(fls)-1].pathMap())
+		} else {
+			full[i] = w0.makeDataset(l, l.Rows)
+		}
 		db := w0.materialise(full[i])
 		got, err := w0.readMeasurement(db)
 		must(err, "fixture read-back")
@@ -1005,6 +1412,26 @@ func main() {
 		sort.Strings(want)
 		if a, b := multisetDiff(want, got); len(a)+len(b) > 0 {
 			must(fmt.Errorf("missing %v extra %v", a, b), "fixture files differ from generator ground truth")
+		}
+		os.RemoveAll(filepath.Join(w0.storeDir(), db))
+	}
+	// the file positions of the sweep are meant in the order the REAL backend lists them
+	{
+		all := &fileLayout{Paths: append([]string{}, sweepAlphabet...)}
+		sort.SliceStable(all.Paths, func(i, j int) bool { return listingLess(all.Paths[i], all.Paths[j]) })
+		w0.caseSeq++
+		db := fmt.Sprintf("d%d", w0.caseSeq)
+		var want []string
+		for _, p := range all.Paths {
+			fp := filepath.Join(w0.storeDir(), db, "m", p)
+			must(os.MkdirAll(filepath.Dir(fp), 0o755), "mkdir")
+			must(os.WriteFile(fp, []byte("x"), 0o644), "write")
+			want = append(want, db+"/m/"+p)
+		}
+		got, err := w0.be.List(context.Background(), db+"/m/")
+		must(err, "storage List")
+		if strings.Join(got, "\n") != strings.Join(want, "\n") {
+			must(fmt.Errorf("backend lists %v, harness assumed %v", got, want), "listing order")
 		}
 		os.RemoveAll(filepath.Join(w0.storeDir(), db))
 	}
@@ -1073,14 +1500,21 @@ func main() {
 	truthAll := map[string]bool{}
 	truthNT := map[string]bool{}
 	kindHist := map[string]int{}
-	samples := ev.NewSamples(8)
+	samples := ev.NewSamples(12)
 	complete := true
 	type rawFail struct {
 		t    task
 		kind string
 	}
-	var fails []rawFail
+	var fails, sweepFails []rawFail
 	memo := map[string]*outcome{}
+	S := layouts[layoutS]
+	var sweepEvals, sweepAffected int
+	sweepByK := map[string]int{}
+	posStatus := map[string]int{}     // "<K> files, file <k>: <status>" -> cases
+	fateHist := map[string]int{}      // "<status> -> untouched|rewritten|removed" -> files
+	sweepVectors := map[string]bool{} // distinct (file layout, status vector)
+	sweepPredSet := map[string]bool{}
 	for i, o := range results {
 		if o == nil {
 			complete = false
@@ -1088,6 +1522,50 @@ func main() {
 		}
 		t := tasks[i]
 		evals++
+		if t.fl >= 0 {
+			f := fls[t.fl]
+			sweepEvals++
+			memo[sweepKey(t.fl, t.st, t.e)] = o
+			if fmt.Sprint(o.FileStatus) != fmt.Sprint(t.st) || len(o.FileFate) != len(t.st) {
+				cleanup()
+				ev.Unbound(fmt.Sprintf("file-layout sweep: placement for %q wanted %s, DuckDB's per-row values give %v", t.e.render(), stText(t.st), o.FileStatus))
+			}
+			key := "S:" + f.name() + ":" + stText(o.FileStatus) + ":" + o.Truth
+			truthAll[key] = true
+			sweepVectors[f.name()+":"+stText(o.FileStatus)] = true
+			sweepPredSet[t.e.render()] = true
+			sweepByK[fmt.Sprintf("%d files", len(f.Paths))]++
+			affected := false
+			for k, v := range o.FileStatus {
+				posStatus[fmt.Sprintf("%d files, file %d: %s", len(f.Paths), k+1, stName[v])]++
+				fateHist[stName[v]+" -> "+map[byte]string{'u': "untouched", 'w': "rewritten", 'r': "removed"}[o.FileFate[k]]]++
+				if v != stNone {
+					affected = true
+				}
+			}
+			if affected {
+				sweepAffected++
+				nontriv++
+				truthNT[key] = true
+			}
+			if o.Status == 200 {
+				okResponses++
+			}
+			kinds := make([]string, 0, len(o.Kinds))
+			for k := range o.Kinds {
+				kinds = append(kinds, k)
+			}
+			sort.Strings(kinds)
+			for _, k := range kinds {
+				kindHist["layout:"+k]++
+				sweepFails = append(sweepFails, rawFail{t, k})
+			}
+			if run.Seed == 0 && sweepEvals%(len(tasks)/8+1) == 1 {
+				samples.Add(map[string]any{"where": t.e.render(), "layout": "S", "files": f.Paths, "file_status": stText(o.FileStatus), "file_fate": o.FileFate,
+					"truth_per_row": o.Truth, "dry_run_count": o.DryCount, "deleted_count": o.DelCount, "http": o.Status})
+			}
+			continue
+		}
 		memo[layouts[t.l].Name+"|"+t.e.render()] = o
 		key := layouts[t.l].Name + ":" + o.Truth
 		truthAll[key] = true
@@ -1246,6 +1724,204 @@ func main() {
 		}
 	}
 
+	// ---- the file-layout sweep: minimise every failure over (number of files, predicate, file layout,
+	// status vector), each towards the simplest/earliest that still violates the same oracle, then the
+	// rows; signature family `layout:<oracle>|<predicate>|<path>=<status>,...`.
+	spreds := sweepPreds()
+	predIdx := map[string]int{}
+	for i, e := range spreds {
+		predIdx[e.render()] = i
+	}
+	flIdx := map[string]int{}
+	for i, f := range fls {
+		flIdx[f.name()] = i
+	}
+	tvS0 := map[string][]byte{}
+	jmS := func(fl int, st []int, e *expr) *outcome {
+		k := sweepKey(fl, st, e)
+		if o, ok := memo[k]; ok {
+			return o
+		}
+		ds, tv := w0.sweepCase(S, fls[fl], e, st, tvS0)
+		if ds == nil {
+			memo[k] = nil
+			return nil
+		}
+		minimRuns++
+		o := w0.judge(ds, e, tv)
+		memo[k] = o
+		return o
+	}
+	hasKind := func(o *outcome, kind string) bool {
+		if o == nil {
+			return false
+		}
+		_, ok := o.Kinds[kind]
+		return ok
+	}
+	type sstate struct {
+		fl int
+		st []int
+		pi int
+	}
+	step := func(kind string, c sstate) (sstate, bool) {
+		f := fls[c.fl]
+		// 1. fewer files
+		if len(f.Paths) > 1 {
+			for k := range f.Paths {
+				var ps []string
+				var st []int
+				for j := range f.Paths {
+					if j != k {
+						ps = append(ps, f.Paths[j])
+						st = append(st, c.st[j])
+					}
+				}
+				n := sstate{flIdx[strings.Join(ps, ",")], st, c.pi}
+				if hasKind(jmS(n.fl, n.st, spreds[n.pi]), kind) {
+					return n, true
+				}
+			}
+		}
+		// 2. an earlier (simpler) predicate
+		for pj := 0; pj < c.pi; pj++ {
+			if hasKind(jmS(c.fl, c.st, spreds[pj]), kind) {
+				return sstate{c.fl, c.st, pj}, true
+			}
+		}
+		// 3. an earlier file layout with the same number of files
+		for fj := 0; fj < c.fl; fj++ {
+			if len(fls[fj].Paths) == len(f.Paths) && hasKind(jmS(fj, c.st, spreds[c.pi]), kind) {
+				return sstate{fj, c.st, c.pi}, true
+			}
+		}
+		// 4. a simpler status at one position (none < partial < full)
+		for k := range c.st {
+			for v := 0; v < c.st[k]; v++ {
+				st := append([]int{}, c.st...)
+				st[k] = v
+				if hasKind(jmS(c.fl, st, spreds[c.pi]), kind) {
+					return sstate{c.fl, st, c.pi}, true
+				}
+			}
+		}
+		return c, false
+	}
+	sort.SliceStable(sweepFails, func(i, j int) bool {
+		a, b := sweepFails[i], sweepFails[j]
+		if a.kind != b.kind {
+			return a.kind < b.kind
+		}
+		if a.t.fl != b.t.fl {
+			return a.t.fl < b.t.fl
+		}
+		if pa, pb := predIdx[a.t.e.render()], predIdx[b.t.e.render()]; pa != pb {
+			return pa < pb
+		}
+		return stText(a.t.st) < stText(b.t.st)
+	})
+	type sminimal struct {
+		c      sstate
+		kind   string
+		count  int
+		others map[string]bool // other file layouts whose failures collapsed into this class
+	}
+	sclasses := map[string]*sminimal{}
+	minOf := map[string]sstate{}
+	for _, f := range sweepFails {
+		cur := sstate{f.t.fl, f.t.st, predIdx[f.t.e.render()]}
+		var visited []string
+		for {
+			k := f.kind + "|" + sweepKey(cur.fl, cur.st, spreds[cur.pi])
+			if m, ok := minOf[k]; ok {
+				cur = m
+				break
+			}
+			visited = append(visited, k)
+			n, changed := step(f.kind, cur)
+			if !changed {
+				break
+			}
+			cur = n
+		}
+		for _, k := range visited {
+			minOf[k] = cur
+		}
+		var parts []string
+		for k, p := range fls[cur.fl].Paths {
+			parts = append(parts, p+"="+stName[cur.st[k]])
+		}
+		sig := "layout:" + f.kind + "|" + spreds[cur.pi].render() + "|" + strings.Join(parts, ",")
+		c, ok := sclasses[sig]
+		if !ok {
+			c = &sminimal{cur, f.kind, 0, map[string]bool{}}
+			sclasses[sig] = c
+		}
+		c.count++
+		if f.t.fl != cur.fl {
+			c.others[fls[f.t.fl].name()] = true
+		}
+	}
+	ssigs := make([]string, 0, len(sclasses))
+	for s := range sclasses {
+		ssigs = append(ssigs, s)
+	}
+	sort.Strings(ssigs)
+	for _, s := range ssigs {
+		c := sclasses[s]
+		e := spreds[c.c.pi]
+		paths := fls[c.c.fl].pathMap()
+		base := sweepRows(S, e, c.c.st)
+		pick := func(ix []int) []*row {
+			var rows []*row
+			for _, i := range ix {
+				rows = append(rows, base[i])
+			}
+			return rows
+		}
+		failsOn := func(ix []int) bool {
+			if len(ix) == 0 {
+				return false
+			}
+			minimRuns++
+			_, ok := w0.judge(w0.makeDatasetAt(S, pick(ix), paths), e, nil).Kinds[c.kind]
+			return ok
+		}
+		var idx []int
+		for i := range base {
+			idx = append(idx, i)
+		}
+		if !failsOn(idx) {
+			cleanup()
+			ev.Nondeterminism(fmt.Sprintf("%s did not reproduce", s))
+		}
+		rows := pick(ev.Minimize(idx, failsOn))
+		o := w0.judge(w0.makeDatasetAt(S, rows, paths), e, nil)
+		o2 := w0.judge(w0.makeDatasetAt(S, rows, paths), e, nil)
+		if _, ok := o.Kinds[c.kind]; !ok || o.Kinds[c.kind] != o2.Kinds[c.kind] || o.Truth != o2.Truth || o.DryCount != o2.DryCount || o.DelCount != o2.DelCount {
+			cleanup()
+			ev.Nondeterminism("minimal case for " + s + " did not reproduce identically")
+		}
+		var rtxt []string
+		for _, r := range rows {
+			rtxt = append(rtxt, fmt.Sprintf("%s in %s", r.short(), strings.TrimPrefix(paths[r.File], "m/")))
+		}
+		others := make([]string, 0, len(c.others))
+		for k := range c.others {
+			others = append(others, "["+k+"]")
+		}
+		sort.Strings(others)
+		also := ""
+		if len(others) > 0 {
+			also = fmt.Sprintf("; the same oracle is also violated on %d other file layouts, e.g. %s", len(others), strings.Join(others[:min(3, len(others))], " "))
+		}
+		desc := fmt.Sprintf("confirmed delete WHERE %s on rows %s: %s (dry run reported %d, delete reported %d)%s", e.render(), strings.Join(rtxt, " "), o.Kinds[c.kind], o.DryCount, o.DelCount, also)
+		rep := map[string]any{"where": e.render(), "layout": "S", "paths": fls[c.c.fl].Paths, "rows": rows, "truth_per_row": o.Truth, "kind": c.kind, "file_status": stText(c.c.st)}
+		for i := 0; i < c.count; i++ {
+			run.Violate(s, desc, rep)
+		}
+	}
+
 	depthHist := map[string]int{}
 	for _, e := range exprs {
 		depthHist[fmt.Sprint("depth", e.depth())]++
@@ -1261,25 +1937,49 @@ func main() {
 	run.Coverage["distinct_nontrivial"] = len(truthNT)
 	run.Coverage["nontrivial_cases"] = nontriv
 	run.Coverage["distinct_truth_vectors"] = len(truthAll)
-	run.Coverage["rule"] = "predicates over atoms {" + strings.Join(atoms, "; ") + "} with NOT/AND/OR: " + bound + ", plus 1=1; each predicate is run (dry run, then confirmed delete, through the real handler) on layout A = 2 files x 18 rows, the product x in {NULL,0,1} x s in {NULL,'a','ab'} x b in {NULL,true} in file 1 and the (x,s) product twice in file 2 which has no column b; predicates that mention b also run on layout B where file 2 has b. A case is non-trivial when some file holds both a row on which the predicate is TRUE and a row on which it is NULL (three-valued logic decides the rewrite of an affected file); distinct = distinct per-row TRUE/FALSE/NULL vectors (per layout) among non-trivial cases"
+	run.Coverage["rule"] = "predicates over atoms {" + strings.Join(atoms, "; ") + "} with NOT/AND/OR: " + bound + ", plus 1=1 [PREDICATE SWEEP]; each predicate is run (dry run, then confirmed delete, through the real handler) on layout A = 2 files x 18 rows, the product x in {NULL,0,1} x s in {NULL,'a','ab'} x b in {NULL,true} in file 1 and the (x,s) product twice in file 2 which has no column b; predicates that mention b also run on layout B where file 2 has b. A case is non-trivial when some file holds both a row on which the predicate is TRUE and a row on which it is NULL (three-valued logic decides the rewrite of an affected file); distinct = distinct per-row TRUE/FALSE/NULL vectors (per layout) among non-trivial cases. [FILE-LAYOUT SWEEP] " + sweepRule + " A sweep case is non-trivial when at least one file is partially or fully matched; distinct = distinct (file layout, status vector, per-row truth vector)"
+	var small []string
+	for _, e := range sweepPredsSmall(S) {
+		small = append(small, e.render())
+	}
+	run.Coverage["layout_sweep"] = map[string]any{
+		"cases":                                 sweepEvals,
+		"cases_by_file_count":                   sweepByK,
+		"cases_with_an_affected_file":           sweepAffected,
+		"path_alphabet_listing_order_verified":  sweepAlphabet,
+		"predicates_run":                        len(sweepPredSet),
+		"small_predicate_set":                   small,
+		"distinct_file_layout_x_status_vectors": len(sweepVectors),
+		"cases_by_position_and_status":          posStatus,
+		"files_by_status_and_fate":              fateHist,
+		"classes":                               len(sclasses),
+		"failing_cases_before_minimisation":     len(sweepFails),
+		"tier_plan":                             map[bool]string{true: "quick", false: "thorough"}[run.Quick()],
+	}
 	run.Coverage["predicates"] = len(exprs)
 	run.Coverage["predicates_by_depth"] = depthHist
 	run.Coverage["cases"] = len(tasks)
 	run.Coverage["delete_http_200"] = okResponses
 	run.Coverage["file_failures_excused_missing_column"] = tolerated
 	run.Coverage["violated_oracles_before_minimisation"] = kindHist
-	run.Coverage["failing_cases_before_minimisation"] = len(fails)
+	run.Coverage["failing_cases_before_minimisation"] = len(fails) + len(sweepFails)
 	run.Coverage["minimisation_runs"] = minimRuns
 	run.Coverage["reference_validated"] = true
 	run.Coverage["samples"] = samples.List()
-	run.Coverage["exhaustive"] = complete
+	run.Coverage["exhaustive"] = complete && os.Getenv("VERIF_C10_ONLY") == ""
+	if only := os.Getenv("VERIF_C10_ONLY"); only != "" {
+		run.Coverage["restricted_to"] = only + " sweep (VERIF_C10_ONLY)"
+	}
 	run.Coverage["worker_processes"] = nProcs
 	run.Coverage["enumeration_s"] = tEnum.Seconds()
 	run.Assume("the oracle is DuckDB's own three-valued value of the predicate (selected iff TRUE) on the generator's table, cross-checked on every row of every predicate against a from-the-standard Kleene evaluator in the harness; a disagreement stops the check (exit 2)")
 	run.Assume("when the predicate mentions column b and file 2 has no such column (layout A) the handler reports that file in failed_files with HTTP 207; a missing column is outside the property's quantifier (nullable columns), so such a file is only required to be left untouched and the other file is judged in full; " + fmt.Sprint(tolerated) + " cases")
+	run.Assume("file-layout sweep: the files of a measurement are at most 3, drawn from the 7-path alphabet; every file has all columns; LocalBackend listing order (verified against the real List at start-up)")
 	run.Assume("LocalBackend only (the S3/Azure rewrite path issues the same SQL but is not driven); both requests carry confirm=true; dataset values beyond {NULL,0,1}/{NULL,'a','ab'}/{NULL,true} and predicates deeper than 2 are outside the bound")
 	fmt.Printf("C10 predicates=%d cases=%d judged=%d nontrivial=%d distinct_truth_vectors=%d (nontrivial %d) http200=%d excused=%d failing=%d classes=%d enumeration=%.1fs\n",
-		len(exprs), len(tasks), evals, nontriv, len(truthAll), len(truthNT), okResponses, tolerated, len(fails), len(classes), tEnum.Seconds())
+		len(exprs), len(tasks), evals, nontriv, len(truthAll), len(truthNT), okResponses, tolerated, len(fails)+len(sweepFails), len(classes)+len(sclasses), tEnum.Seconds())
+	fmt.Printf("C10 file-layout sweep: cases=%d (by file count %v) layout x status vectors=%d predicates=%d affected=%d files by status -> fate %v failing=%d classes=%d\n",
+		sweepEvals, sweepByK, len(sweepVectors), len(sweepPredSet), sweepAffected, fateHist, len(sweepFails), len(sclasses))
 	if len(truthAll) < 2 {
 		fmt.Println("C10 VACUITY WARNING: fewer than two distinct truth vectors were produced")
 	}
@@ -1295,9 +1995,11 @@ func replay(run *ev.Run, w *worker, layouts []*layout) {
 	must(err, "replay file")
 	var f struct {
 		Replay struct {
-			Where  string `json:"where"`
-			Layout string `json:"layout"`
-			Rows   []row  `json:"rows"`
+			Where  string   `json:"where"`
+			Layout string   `json:"layout"`
+			Rows   []row    `json:"rows"`
+			Paths  []string `json:"paths"`
+			Status string   `json:"file_status"`
 		} `json:"replay"`
 	}
 	must(json.Unmarshal(b, &f), "replay json")
@@ -1327,7 +2029,12 @@ func replay(run *ev.Run, w *worker, layouts []*layout) {
 			}
 		}
 	}
-	o := w.judge(w.makeDataset(L, rows), e, nil)
+	paths := fileRel
+	if L.Name == "S" {
+		paths = (&fileLayout{Paths: f.Replay.Paths}).pathMap()
+	}
+	ds := w.makeDatasetAt(L, rows, paths)
+	o := w.judge(ds, e, nil)
 	kinds := make([]string, 0, len(o.Kinds))
 	for k := range o.Kinds {
 		kinds = append(kinds, k)
@@ -1335,7 +2042,17 @@ func replay(run *ev.Run, w *worker, layouts []*layout) {
 	sort.Strings(kinds)
 	for _, k := range kinds {
 		sig := k + "|" + e.render()
-		if L.Name != "A" {
+		if L.Name == "S" {
+			// the class signature names the status vector of the minimal case before its rows were reduced
+			var parts []string
+			sts := strings.Split(f.Replay.Status, ",")
+			for i, p := range f.Replay.Paths {
+				if i < len(sts) {
+					parts = append(parts, p+"="+sts[i])
+				}
+			}
+			sig = "layout:" + sig + "|" + strings.Join(parts, ",")
+		} else if L.Name != "A" {
 			sig += "|layout=" + L.Name
 		}
 		run.Violate(sig, o.Kinds[k], f.Replay)
